@@ -8,7 +8,8 @@ import AsyncsshModel.Model.Channel
 
   The decoder is modelled byte-exactly as the well-formedness automaton of Unicode Table 3-7 (what CPython's
   `unicode_decode_utf8` implements, including *when* an ill-formed sequence is reported: at the first byte that
-  cannot continue a well-formed sequence, also when the sequence is still incomplete).  State = the bytes of
+  cannot continue a well-formed sequence, also when the sequence is still incomplete — with the one exception
+  CPython makes: a truncated surrogate `ED A0..BF` is reported one byte later).  State = the bytes of
   the incomplete sequence that CPython's incremental decoder keeps buffered.
 
   Code points are `Nat`s; `encCp` is UTF-8 encoding by arithmetic (the sender side: `encoder.encode(data)`
@@ -29,13 +30,18 @@ inductive St where
 
 def isCont (b : Nat) : Bool := decide (0x80 ≤ b ∧ b ≤ 0xBF)
 
-/-- allowed second byte after lead byte `b0` (Unicode Table 3-7: excludes overlong forms, surrogates, > U+10FFFF) -/
+/-- second byte after lead byte `b0` that does not raise at once (Unicode Table 3-7: excludes overlong forms and
+    > U+10FFFF).  A surrogate prefix `ED A0..BF` is NOT rejected here: CPython's incremental decoder keeps a
+    truncated surrogate at the end of a chunk buffered ("Truncated surrogate code in range D800-DFFF" in
+    `unicode_decode_utf8`) and raises on the next byte; `stepByte` does the same through `surrogatePrefix`. -/
 def secondOk (b0 b : Nat) : Bool :=
   if b0 = 0xE0 then decide (0xA0 ≤ b ∧ b ≤ 0xBF)
-  else if b0 = 0xED then decide (0x80 ≤ b ∧ b ≤ 0x9F)
   else if b0 = 0xF0 then decide (0x90 ≤ b ∧ b ≤ 0xBF)
   else if b0 = 0xF4 then decide (0x80 ≤ b ∧ b ≤ 0x8F)
   else isCont b
+
+/-- `ED A0..BF`: the first two bytes of an encoded surrogate, ill-formed whatever follows -/
+def surrogatePrefix (b0 b1 : Nat) : Bool := decide (b0 = 0xED ∧ 0xA0 ≤ b1)
 
 /-- length of the sequence introduced by lead byte `b0`; 0 = not a lead byte -/
 def seqLen (b0 : Nat) : Nat :=
@@ -59,7 +65,7 @@ def stepByte (st : St) (b : Nat) : Option (St × Option Nat) :=
       else some (.s2 b0 b, none)
     else none
   | .s2 b0 b1 =>
-    if isCont b then
+    if isCont b ∧ ¬ surrogatePrefix b0 b1 then
       if seqLen b0 = 3 then some (.s0, some ((b0 - 0xE0) * 4096 + (b1 - 0x80) * 64 + (b - 0x80)))
       else some (.s3 b0 b1 b, none)
     else none
